@@ -83,6 +83,42 @@ def bracket_check(md, log, op, fault, nested, buffered, raised, buffered_class):
     return None
 
 
+def _role(info):
+    i = str(info)
+    return "buffer" if i.startswith("buffer(") else "file" if i.startswith("file(") else "cls" if i.startswith("cls(") else None
+
+
+_ORDER_CACHE = {}
+
+
+def order_check(md, log, what):
+    """tie to `Locks.acquireOk` / C10_no_deadlock_audited: every non-reentrant acquisition observed
+    on the real code must pass the model's audit for the roles of the locks held at that moment
+    (hierarchy buffer < file < class registry).  Returns a problem string or None."""
+    held = []          # [info, count]
+    for kind, info in log:
+        if kind not in ("acq", "rel") or _role(info) is None:
+            continue
+        ent = next((h for h in held if h[0] == info), None)
+        if kind == "acq":
+            if ent:
+                ent[1] += 1
+                continue
+            roles = [_role(h[0]) for h in held]
+            q = "lockorder %s / %s" % (" ".join(roles), _role(info))
+            if q not in _ORDER_CACHE:
+                _ORDER_CACHE[q] = md.query(q)
+            if _ORDER_CACHE[q] != "order: ok":
+                return "lock order: %s acquires %s while holding %s (%s; the hierarchy buffer < file < class lock assumed by C10_no_deadlock_audited does not hold on this path)" % (
+                    what, info, ", ".join(str(h[0]) for h in held), _ORDER_CACHE[q])
+            held.append([info, 1])
+        elif ent:
+            ent[1] -= 1
+            if ent[1] == 0:
+                held.remove(ent)
+    return None
+
+
 def unit_c10_faults(args):
     fam_index, is_dict, nested, buffered, seed = args
     ns = env.load()
@@ -158,6 +194,8 @@ def unit_c10_faults(args):
                         S.EVENT_LOG[0] = None
                     if tie_problem is None:
                         tie_problem = bracket_check(md, oplog, op, fault, nested, buffered, raised, fam.buffered is not None)
+                    if tie_problem is None:
+                        tie_problem = order_check(md, oplog, "%s%r (%s)" % (op[0], tuple(op[1:]), fault))
                     n += 1
                     if raised:
                         errors_seen += 1
@@ -212,17 +250,25 @@ def unit_c10_filename(args):
     ns = env.load()
     fam = ns.families[fam_index]
     res = dict(kind="oracle", fam=fam_index, seed=seed, profile="c10/filename", steps=1, stats={"cases": 1}, violations=[])
+    classes = list(fam.classes)
     try:
         drive.reset_class_state(ns)
+        import suites
+        md = suites.model_driver(ns)
+        S.install_event_hooks(ns)
+        S.instrument_locks(ns, classes)
         with drive.Scratch() as tmp:
             world = World(ns, fam, tmp)
             world.write(0, {"a": 1})
             world.write(1, {"b": 2})
             o1, o2 = world.open(True, 0), world.open(True, 0)
             o3 = world.open(True, 1)
+            S.name_locks(classes)
             problems = []
+            S.EVENT_LOG[0] = []
             try:
                 o1.filename = world.path(1)
+                S.name_locks(classes)
                 o2["x"] = 1
                 o1["y"] = 2
                 o3["z"] = 3
@@ -231,15 +277,30 @@ def unit_c10_filename(args):
                 if world.read(1) != {"b": 2, "y": 2, "z": 3}:
                     problems.append("new file holds %r" % (world.read(1),))
                 o1.filename = world.path(2)
-                o1["q"] = 1
+                S.name_locks(classes)
+                o1["q"] = {"nested": {"k": 1}}
                 o3["w"] = 1
-                o2["v"] = 1
+                o2["v"] = [{"n": 1}]
             except Exception as e:  # noqa: BLE001
                 problems.append("raised %s: %s" % (type(e).__name__, e))
+            finally:
+                oplog = S.EVENT_LOG[0] or []
+                S.EVENT_LOG[0] = None
+            tp = order_check(md, oplog, "`obj.filename = other` followed by writes")
+            if tp:
+                res["tie_problem"] = tp
+            held = _held(classes)
+            if held:
+                problems.append("locks still held: %s" % "; ".join(held))
             if problems:
                 res["violations"].append(dict(props=["C10"], msg="after `obj.filename = other`: " + "; ".join(problems), fam=fam.short,
                                               kind="c10f", sig="C10:filename", ops=None, extra=dict(fam_index=fam_index)))
+        S.restore_locks(ns, classes)
         drive.reset_class_state(ns)
     except Exception:  # noqa: BLE001
+        try:
+            S.restore_locks(ns, classes)
+        except Exception:  # noqa: BLE001
+            pass
         return dict(kind="oracle", fam=fam_index, seed=seed, profile="c10/filename", crash=traceback.format_exc())
     return res
